@@ -11,6 +11,9 @@ pub fn witness(prop: &str, obligation: &str, input: String, got: String, want: S
     println!("WITNESS property={prop} obligation={obligation} input={input} got={got} want={want}");
 }
 
+/// case-count multiplier: 1 in the quick tier, 4 in thorough
+pub fn scale() -> u64 { if std::env::var("VERIF_TIER").map_or(false, |t| t == "thorough") { 4 } else { 1 } }
+
 pub struct Rng(pub u64);
 impl Rng {
     pub fn seeded(salt: u64) -> Self {
